@@ -38,7 +38,17 @@ def nested_programs(draw):
     paths = draw(st.lists(st.sampled_from(PATHS), min_size=2, max_size=5))
     dflt = draw(st.sampled_from([None, 0, "dflt"]))
     reads = ["list", [["getctx", p, dflt] for p in paths]]
-    kind = draw(st.sampled_from(["body", "child", "default"]))
+    kind = draw(st.sampled_from(["body", "child", "default", "default-siblings"]))
+    if kind == "default-siblings":
+        # several calls of one task from the same parent job, each with its own override; the task
+        # reads the context through its default arguments (the same get_context expressions for all)
+        body = ["list", [["var", "c"], ["var", "c2"]]]
+        sib = [["task", body, {}, {"t": "cnode", "ctx": draw(ctxdict)}] for _ in range(draw(st.integers(1, 3)))]
+        sib.insert(draw(st.integers(0, len(sib))), ["task", body, {}, {"t": "cnode"}])
+        cur = ["list", sib + [["getctx", "a", dflt]]]
+        for _ in range(draw(st.integers(0, 2))):
+            cur = ["task", cur, {}, {"ctx": draw(ctxdict)}]
+        return cur
     if kind == "child":
         reads = ["list", [reads, ["task", ["getctx", paths[0], dflt], {}, {}]]]
     cur = reads
